@@ -254,7 +254,7 @@ func (s *sink) apply(st step) {
 			}
 			return
 		}
-		s.nodes(st.N*[]int{1, 7, 30}[st.Big%3], st.Order, nil)
+		s.nodes(st.N*[]int{1, 7, (len(s.w.nodes) + 5) / 6}[st.Big%3], st.Order, nil)
 	case "blocks":
 		s.advance("blocks")
 		if s.phase() == "blocks" && s.ok() {
@@ -306,6 +306,16 @@ func (s *sink) judge() verdict {
 	v.rootOK = err == nil && sr.Root.Equals(w.root)
 	dump := chainkit.StorageDump(s.bc)
 	v.storeOK = fmt.Sprint(dump) == fmt.Sprint(w.flatP)
+	// how many headers beyond the sync point a synchronisation happened to collect is not part of its result: the
+	// node learns the rest of the source's headers the ordinary way before the databases are compared
+	if hh := s.bc.HeaderHeight(); hh < w.N {
+		var hs []*block.Header
+		for h := hh + 1; h <= w.N; h++ {
+			hs = append(hs, &w.block(h).Header)
+		}
+		s.label("headers-after", s.ndeliv)
+		_, _ = guarded(func() error { return s.bc.AddHeaders(hs...) })
+	}
 	s.label("final-flush", s.ndeliv)
 	_, _ = guarded(func() error { return s.bc.VerifPersist() })
 	v.final1 = DumpStore(s.mem)
@@ -558,6 +568,7 @@ func (d *driver) runWorld(wi int, long bool, scheds [][]step) {
 		"nnodes": len(w.nodes), "nocc": w.nocc, "page": 2000, "long": long})
 	d.res.Inc("trie_nodes", len(w.nodes))
 	d.res.Inc("shared_nodes", w.nocc-len(w.nodes))
+	d.res.Inc("twin_branches", w.twins)
 	fail := func(kind, stage, point, what string, replay map[string]any) {
 		d.res.Violate(map[string]any{"part": "synccrash", "kind": kind, "stage": stage, "point": point}, what, replay)
 	}
@@ -591,7 +602,7 @@ func (d *driver) runWorld(wi int, long bool, scheds [][]step) {
 			classes = append(classes, c)
 			facts = append(facts, f)
 			images = append(images, img.Clone())
-			d.tr.Emit(map[string]any{"event": "batch", "world": wi, "run": si, "idx": b.Idx, "class": c, "label": b.Label, "during": b.Stage,
+			d.tr.Emit(map[string]any{"event": "batch", "world": wi, "run": si, "idx": b.Idx, "class": c, "point": c, "stage": stageOfClass(c), "label": b.Label, "during": b.Stage,
 				"disk": f, "touch": touch(b), "kind": b.Kind, "p": w.P, "page": 2000})
 			d.res.Count([]any{"batch", c, b.Label, touch(b)})
 			before = f
@@ -622,6 +633,10 @@ func (d *driver) runWorld(wi int, long bool, scheds [][]step) {
 			d.emitOutcome(w, o, cctx, ref, true)
 			d.res.Count([]any{"crash", c, o.stage0, facts[k-1].Frontier > 0, facts[k-1].BlkAny, remote != w.N})
 			d.res.Inc("crash_points", 1)
+			d.res.Inc("crash_"+c, 1)
+			if facts[k-1].Trap && facts[k-1].Jst == "none" && facts[k-1].Cur <= 0 {
+				d.res.Inc("crash_points_on_trapped_trie", 1)
+			}
 			if !second || len(o.batches) == 0 {
 				continue
 			}
